@@ -1,6 +1,7 @@
 package rules
 
 import (
+	"go/types"
 	"fmt"
 	"strings"
 
@@ -653,6 +654,35 @@ func checkRelayBidCache(p *core.Prog, r *core.Report, ds *core.Describer) {
 		if okAll {
 			r.Hold("C09.f", "blockrelay|cached-bid", p.Pos(ci.Pos()), "the winning bid is cached under a non-nil winner guard, otherwise nothing (a dummy)")
 		}
+	}
+	// the cache entry of an auction is always replaced by that auction's outcome: every path through cacheBid
+	// passes the store of the slot/parent/proposer entry (an earlier winner kept after a later auction without a
+	// winner would still be served to the beacon node)
+	if cb := p.Func(relayRel, "Service", "cacheBid"); cb != nil {
+		var stores []ssa.Instruction
+		core.EachInstr(cb, func(in ssa.Instruction) {
+			if mu, ok := in.(*ssa.MapUpdate); ok {
+				if pt, ok := mu.Value.Type().(*types.Pointer); ok && strings.HasSuffix(pt.Elem().String(), "VersionedSignedBuilderBid") {
+					stores = append(stores, in)
+				}
+			}
+		})
+		if len(stores) == 0 {
+			r.Violate("C09.f", "blockrelay|cacheBid|always-stores", p.Pos(cb.Pos()), "cacheBid never stores a bid entry")
+		} else {
+			w := core.PathQuery{Fn: cb, Target: core.IsReturn, Avoid: func(in ssa.Instruction) bool {
+				for _, st := range stores {
+					if in == st {
+						return true
+					}
+				}
+				return false
+			}}.Find()
+			r.Check(w == nil, "C09.f", "blockrelay|cacheBid|always-stores", p.Pos(stores[0].Pos()), "every path through cacheBid replaces the entry with this auction's outcome",
+				"cacheBid can return without replacing the entry: the outcome of an earlier auction for the same slot, parent and proposer stays in the cache and is served although the latest auction had a different (or no) winner", p.WitnessText(w)...)
+		}
+	} else {
+		r.Undecide("C09.f", "blockrelay|cacheBid", "", "anchor not found")
 	}
 	if bb := p.Func(relayRel, "Service", "BuilderBid"); bb != nil {
 		n := 0
